@@ -15,7 +15,7 @@ import (
 
 func init() {
 	Registry["C17"] = Set{
-		Explanation: "Decides structural clauses of the application lifecycle: A1 in start, the CAS Loaded->Running success edge dominates the first member spawn, a failed spawn kills every member started so far and stores Loaded before the error is returned, and the Start callback has exactly one call site, after all spawns; A2 mode table — in terminate the 'stop everything' action (swap to Stopping + shutdown of all members) is reachable only with mode Permanent, or with mode Transient on paths that passed reason != Normal and reason != Shutdown, never with Temporary (enum value sets refined along the switch edges plus must-pass of the reason tests); A3 the Terminate callback is dominated by 'member group empty' and by the swap to Loaded whose old value was tested, so it runs once per stop; A4 every path to application.start starts the spec's dependencies first (all call sites are preceded by the shared dependency step); A5 stop returns nil only from the stopped channel or when the state is already Loaded, and the stopped channel is closed only on the path that found the group empty. Added while probing: A1 a successful start stores the requested mode; A2 at each stop-all site the edge that won the swap to Stopping sends an exit to every member and records the causing reason before the common tail; A5 identifies the state word by its atomic load (a select index is not a state).",
+		Explanation: "Decides structural clauses of the application lifecycle: A1 in start, the CAS Loaded->Running success edge dominates the first member spawn, a failed spawn kills every member started so far and stores Loaded before the error is returned, and the Start callback has exactly one call site, after all spawns; A2 mode table — in terminate the 'stop everything' action (swap to Stopping + shutdown of all members) is reachable only with mode Permanent, or with mode Transient on paths that passed reason != Normal and reason != Shutdown, never with Temporary (enum value sets refined along the switch edges plus must-pass of the reason tests); A3 the Terminate callback is dominated by 'member group empty' and by the swap to Loaded whose old value was tested, so it runs once per stop; A4 every path to application.start starts the spec's dependencies first (all call sites are preceded by the shared dependency step); A5 stop returns nil only from the stopped channel or when the state is already Loaded, and the stopped channel is closed only on the path that found the group empty. Added while probing: A1 a successful start stores the requested mode; A2 at each stop-all site the edge that won the swap to Stopping sends an exit to every member and records the causing reason before the common tail; A5 identifies the state word by its atomic load (a select index is not a state). A5 also: stop records its reason before it takes the members down; A6 nothing a Range callback over the member group calls synchronously locks that group again (lock re-entrancy through the static call graph); A1/A2 recognise a complete member fan-out in both shapes (Range callback that never stops, or a loop over the collected members left only by exhaustion).",
 		NotDecided: []string{
 			"interleavings of start/stop/member death (e.g. a member dying before it is stored in the group)",
 			"order of member starts relative to dependency graphs with cycles",
@@ -24,7 +24,7 @@ func init() {
 		Run:         runC17,
 	}
 	Registry["C10"] = Set{
-		Explanation: "Decides structural clauses of 'no orphans': N1 every spawn issued by the supervisor and the pool passes options with LinkParent (and the supervisor LinkChild) constant-true; N2 spawn adds the child->parent link when LinkParent is set, before the child is published, and the exit sent when a process terminates names the terminated process as sender, so that a trapping child cannot trap its parent's exit (C05.T4 checks the trap exemption); N3 the node's wait group is incremented at spawn and decremented at process release under the same condition, graceful node stop waits on it before the network is torn down, and it sends the shutdown exit from each process's parent pid; N4 application.stop reports success only from the stopped channel or an already loaded state, and the channel is closed only when the member group is empty. Added while probing: N2 on a failed ProcessInit the children already spawned get their exit through sendExitMessage with the failed process as sender.",
+		Explanation: "Decides structural clauses of 'no orphans': N1 every spawn issued by the supervisor and the pool passes options with LinkParent (and the supervisor LinkChild) constant-true; N2 spawn adds the child->parent link when LinkParent is set, before the child is published, and the exit sent when a process terminates names the terminated process as sender, so that a trapping child cannot trap its parent's exit (C05.T4 checks the trap exemption); N3 the node's wait group is incremented at spawn and decremented at process release under the same condition, graceful node stop waits on it before the network is torn down, and it sends the shutdown exit from each process's parent pid; N4 application.stop reports success only from the stopped channel or an already loaded state, and the channel is closed only when the member group is empty. Added while probing: N2 on a failed ProcessInit the children already spawned get their exit through sendExitMessage with the failed process as sender. N2 also: on a failed ProcessInit the relations that target the failed process are drained (RouteTerminatePID), so children linked to it by LinkParent get its exit; N3 the Wait is on every path to NetworkStop that is consistent with force == false; N5 = C17.A6.",
 		NotDecided: []string{
 			"transitive termination through a supervision tree under arbitrary fault points",
 			"that children terminate within the stop timeout",
